@@ -40,6 +40,34 @@ class C18(CtxCheck):
             out.append(base + [("op", 0, ("add", "Bd", False, "v:c0:Bd:0", "m")), ("op", 0, ("addf", "ABd", "sync", "f:c0:ABd:0", "m"))])
         return out
 
+    def units(self, tier: str, seed: int) -> list:
+        return super().units(tier, seed) + [{"reuse": True}]
+
+    def work(self, unit: dict, tier: str) -> dict:
+        if unit.get("reuse"):
+            return self.reuse_unit()
+        return super().work(unit, tier)
+
+    def reuse_unit(self) -> dict:
+        """A subscriber outlives its owner; a new owner allocated at the same address publishes: the event must not reach the old
+        owner's subscriber and must carry the new owner as source (run in a fresh interpreter, see vk/reuse.py)."""
+        from ..reuse import summary_for
+
+        return summary_for("context", "C18")
+
+    def replay(self, rec: dict):  # type: ignore[no-untyped-def]
+        if rec.get("program", {}).get("reuse"):
+            s = self.reuse_unit()
+            for v in s["violations"]:
+                for f in v["fails"]:
+                    print("FAIL", f[0], "-", f[1])
+            if s["violations"]:
+                print(f"VIOLATION property=C18 replay={rec.get('_path', '')}")
+                return 1
+            print("no violation on this tree")
+            return 0
+        return super().replay(rec)
+
     def enabled(self, u: Universe) -> list[tuple]:
         ops: list[tuple] = []
         if len(u.models) < self.max_ctx:
